@@ -1,0 +1,79 @@
+//go:build verif
+
+package frugal
+
+import (
+	"github.com/apache/thrift/lib/go/thrift"
+)
+
+// VerifHook is installed by the verification harness (build tag verif) before
+// any goroutine is started. point names the yield point / linearization point,
+// obj identifies the registry or transport instance, id is the op id or
+// generation, n a cheap scalar (map size, channel length, ...). The hook may
+// block (the harness uses that to steer goroutines), so it is never called
+// while a library lock is held unless the point is documented "event only".
+var VerifHook func(point string, obj interface{}, id uint64, n int)
+
+func verifHook(point string, obj interface{}, id uint64, n int) {
+	if h := VerifHook; h != nil {
+		h(point, obj, id, n)
+	}
+}
+
+func verifOpID(ctx FContext) uint64 { id, _ := getOpID(ctx); return id }
+
+// VerifRegistry returns the registry object of a client transport (the obj
+// value passed to VerifHook by registry points), or nil.
+func VerifRegistry(t FTransport) interface{} {
+	switch x := t.(type) {
+	case *fAdapterTransport:
+		return x.registry
+	case *fNatsTransport:
+		return x.registry
+	}
+	return nil
+}
+
+// VerifRegistrySize is the number of in-flight registrations of a client
+// transport, -1 if the transport has no registry.
+func VerifRegistrySize(t FTransport) int {
+	r, ok := VerifRegistry(t).(*fRegistryImpl)
+	if !ok {
+		return -1
+	}
+	r.mu.RLock()
+	defer r.mu.RUnlock()
+	return len(r.channels)
+}
+
+// Export shims for unexported frame functions.
+
+func VerifGetHeadersFromFrame(frame []byte) (map[string]string, error) {
+	return getHeadersFromFrame(frame)
+}
+
+func VerifAddHeadersToFrame(frame []byte, headers map[string]string) ([]byte, error) {
+	return addHeadersToFrame(frame, headers)
+}
+
+func VerifExecuteFrame(t FTransport, frame []byte) error {
+	switch x := t.(type) {
+	case *fNatsTransport:
+		return x.fBaseTransport.ExecuteFrame(frame)
+	case *fAdapterTransport:
+		return x.registry.Execute(frame)
+	}
+	return nil
+}
+
+func VerifNewRegistry() interface{} { return newFRegistry() }
+
+func VerifRegistryRegister(r interface{}, ctx FContext, c chan []byte) error {
+	return r.(fRegistry).Register(ctx, c)
+}
+func VerifRegistryUnregister(r interface{}, ctx FContext) { r.(fRegistry).Unregister(ctx) }
+func VerifRegistryExecute(r interface{}, frame []byte) error {
+	return r.(fRegistry).Execute(frame)
+}
+
+var _ thrift.TTransport
